@@ -57,6 +57,35 @@ GCmdsAll == {[e |-> "cmd", c |-> "resume"], [e |-> "cmd", c |-> "quit"],
              [e |-> "cmd", c |-> "other", text |-> "help"]}
 TwoAddrs == {"0x5555aa10", "0x5555bb20"}
 
+\* Witnesses against vacuity (see MC_Session): Never_X must be reported violated
+Reach_Halted        == G.halted /\ act.e = "hit"
+Reach_NotHalted     == ~G.halted /\ act.e = "hit" /\ G.S.brk # FNone
+Reach_HaltSelOther  == act.e = "hit" /\ ~G.halted /\ G.S.sel # 0 /\ G.S.hconn[Len(G.S.hist)] # G.S.sel /\ SelLo(G.S.brk, G.S.hist[Len(G.S.hist)])
+Reach_StayHalted    == G.halted /\ act.e = "invoke"
+Reach_Resumed       == ~G.halted /\ act.e = "invoke" /\ act.cmd.c = "resume"
+Reach_Quit          == G.S.quit
+Reach_Closed        == \E k \in 1..Len(G.S.conns) : ~G.S.conns[k].open
+Reach_AddrReuse     == \E k1, k2 \in 1..Len(G.S.conns) : k1 < k2 /\ G.S.conns[k1].tag = G.S.conns[k2].tag
+Reach_DestroyNever  == act.e = "destroy" /\ act.addr = "never"
+Reach_DestroyClosed == act.e = "destroy" /\ act.addr # "never" /\ act.addr \notin DOMAIN G.pmap
+                       /\ \E k \in 1..Len(G.S.conns) : G.S.conns[k].tag = act.addr
+Reach_OtherThread   == act.e = "hit" /\ act.addr \in DOMAIN G.pmap /\ G.pmap[act.addr] # act.thread
+Reach_TwoOpen       == Cardinality(DOMAIN G.pmap) >= 2
+Reach_BreakChanged  == act.e = "invoke" /\ act.cmd.c = "break" /\ Len(G.S.hist) > 0
+Never_Halted == ~Reach_Halted
+Never_NotHalted == ~Reach_NotHalted
+Never_HaltSelOther == ~Reach_HaltSelOther
+Never_StayHalted == ~Reach_StayHalted
+Never_Resumed == ~Reach_Resumed
+Never_Quit == ~Reach_Quit
+Never_Closed == ~Reach_Closed
+Never_AddrReuse == ~Reach_AddrReuse
+Never_DestroyNever == ~Reach_DestroyNever
+Never_DestroyClosed == ~Reach_DestroyClosed
+Never_OtherThread == ~Reach_OtherThread
+Never_TwoOpen == ~Reach_TwoOpen
+Never_BreakChanged == ~Reach_BreakChanged
+
 Emit == PrintT(<<"EDGE", ToJson([path |-> inp, ev |-> act'])>>)
 View == <<G>>
 =============================================================================
